@@ -65,27 +65,22 @@ def run_case(case, eng, res):
     # duration and next-run text are decided for every input by C14 and C13: here they are argument-recording summaries,
     # so that C10 is about which record fields reach them; the day decoder stays inlined where the mask is concrete
     summarize = True
-    saved = {}
     if summarize:
-        names = ("bit_summary_to_days", "pretty_next_run", "calc_duration") if kind == "parseK" else ("pretty_next_run", "calc_duration")
-        for name in names:
-            saved[name] = getattr(sched_tools, name)
-
         def s_days(v):
             ok = b_and(v > 1, v < 255)
             if not bool(ok):
                 raise ValueError("weekdays bit sum should be between 2 and 254")
             return Summary("days", [v])
 
+        mod = sched_tools.__name__
         if kind == "parseK":
-            sched_tools.bit_summary_to_days = s_days
-        sched_tools.pretty_next_run = lambda start, days=None: Summary("next_run", [start, days])
-        sched_tools.calc_duration = lambda a, b: Summary("duration", [a, b])
+            loader.override(mod, "bit_summary_to_days", s_days)
+        loader.override(mod, "pretty_next_run", lambda start, days=None, *a, **k: Summary("next_run", [start, days]))
+        loader.override(mod, "calc_duration", lambda a, b, *x, **k: Summary("duration", [a, b]))
     try:
         _run(case, eng, res, kind, rows, sched)
     finally:
-        for k, v in saved.items():
-            setattr(sched_tools, k, v)
+        loader.clear_overrides()
 
 
 def _run(case, eng, res, kind, rows, sched):
